@@ -554,8 +554,13 @@ closure 0
 }
 
 impl SlotBlockData {
+    // SlotBlockData::disseminated_is: ASSUMED here (BlockData is opaque in this unit), PROVED on the real body in unit blockdata
+    #[verifier::external_body] /* proved-elsewhere */
+    pub fn disseminated_is(&self, hash: &BlockHash) -> (r: bool)
+        ensures r == (self.disseminated.completed_hash() == Some(*hash))
+    { unimplemented!() }
 /*@ extract src/consensus/blockstore/slot_block_data.rs :: impl SlotBlockData/fn add_shred_from_repair
-props C14
+props C14 C13
 ret r
 rewrite[R5] `self .repaired .entry(` => `verif_repaired_entry(&mut self.repaired, self.slot, `
 rewrite[R5] `) .or_insert_with(|| BlockData::new(self.slot))` => `)`
@@ -566,6 +571,12 @@ ensures
         r matches Ok(Some(BlockstoreEvent::Block { slot, block_info })) ==> block_info.hash == hash,
         // [C14.repaired_block_is_stored_only_under_its_own_hash]
         final(self).repaired_ok(),
+        // [C13.first_shred_is_announced_for_dissemination_only C14.first_shred_is_announced_for_dissemination_only] (finding F31: every
+        // repaired copy used to announce "first shred of the slot" again)
+        !(r matches Ok(Some(BlockstoreEvent::FirstShred(_)))),
+        // [C13.block_is_announced_once_across_dissemination_and_repair C14.block_is_announced_once_across_dissemination_and_repair]
+        r matches Ok(Some(BlockstoreEvent::Block { slot, block_info })) ==> old(self).disseminated.completed_hash() != Some(hash),
+        final(self).disseminated == old(self).disseminated,
         // other repaired blocks and the disseminated block are untouched
         forall|h: BlockHash| h != hash ==> (#[trigger] final(self).repaired@.contains_key(h) <==> old(self).repaired@.contains_key(h))
             && (final(self).repaired@.contains_key(h) ==> final(self).repaired@[h] == old(self).repaired@[h]),
